@@ -49,8 +49,9 @@ inductive Reaction (m : Msg) : Msg → Prop where
   /-- a parked command of the node that just woke (C07) -/
   | released (bm : Msg) (h : bm.node = m.node) : Reaction m bm
 
-/-- Everything handling the message `m` can do to the world, as `R`-steps. -/
-structure StepRel (R : W → W → Prop) (m : Msg) : Prop where
+/-- Everything handling the message `m` can do to the world as `R`-steps, EXCEPT removing flushed entries
+from the sleep buffer: what suffices for every handler that does not release. -/
+structure StepRel0 (R : W → W → Prop) (m : Msg) : Prop where
   pre : PreO R
   /-- only reactions are ever handed to the transport -/
   write : ∀ sm, Reaction m sm → Rel R (transportWrite (encode sm))
@@ -58,18 +59,21 @@ structure StepRel (R : W → W → Prop) (m : Msg) : Prop where
   setNode : ∀ n, Rel R (AioMySensors.setNode m.node n)
   /-- … or register a placeholder under the next free id (id request) -/
   alloc : Rel R allocNode
-  /-- the flush removes entries of the woken node only -/
-  erase : ∀ k bm, bm.node = m.node → Rel R (eraseMod k bm)
   mark : Rel R (markMod (presentationRequest m.node))
   unmark : Rel R (prePresentation20 m)
   version : ∀ v, getProtocolE m.payload = .ok v → Rel R (versionMod m.payload v)
+
+/-- Everything handling the message `m` can do to the world, as `R`-steps. -/
+structure StepRel (R : W → W → Prop) (m : Msg) : Prop extends StepRel0 R m where
+  /-- the flush removes entries of the woken node only -/
+  erase : ∀ k bm, bm.node = m.node → Rel R (eraseMod k bm)
 
 variable {R : W → W → Prop} {m : Msg} {line : Str}
 
 /-- The command has the parking outgoing handler in some version. -/
 def ParksCmd (cmd : Int) : Prop := ∃ v, (Gen.outgoingHandlers v).lookup cmd = some (some .set14)
 
-theorem rel_gwSend (hR : StepRel R m) (sm : Msg) (b : Bool) (hr : Reaction m sm)
+theorem rel_gwSend (hR : StepRel0 R m) (sm : Msg) (b : Bool) (hr : Reaction m sm)
     (hpark : b = true → ParksCmd sm.cmd → Rel R (parkMod sm)) :
     Rel R (gwSend sm b) := by
   unfold gwSend
@@ -90,7 +94,7 @@ theorem rel_gwSend (hR : StepRel R m) (sm : Msg) (b : Bool) (hr : Reaction m sm)
 /-- What the generic traversal needs to know about parking at the reaction call sites. -/
 def ParkOK (R : W → W → Prop) : Prop := ∀ b ∈ reactionFlags, b = true → ∀ m, ParksCmd m.cmd → Rel R (parkMod m)
 
-theorem rel_gwSend_site (hR : StepRel R m) (hp : ParkOK R) (sm : Msg) (b : Bool) (hr : Reaction m sm)
+theorem rel_gwSend_site (hR : StepRel0 R m) (hp : ParkOK R) (sm : Msg) (b : Bool) (hr : Reaction m sm)
     (hb : b ∈ reactionFlags) : Rel R (gwSend sm b) :=
   rel_gwSend hR sm b hr fun h hc => hp b hb h sm hc
 
@@ -99,7 +103,7 @@ macro "reaction_tac" : tactic => `(tactic| first
   | exact Reaction.versionQuery | exact Reaction.presentationRequest | exact Reaction.reboot
   | exact Reaction.reqReply _ | exact Reaction.idResponse _ | exact Reaction.echoReply _ | exact Reaction.discover)
 
-theorem rel_requireNode (hR : StepRel R m) (id : Int) : Rel R (requireNode id) := by
+theorem rel_requireNode (hR : StepRel0 R m) (id : Int) : Rel R (requireNode id) := by
   unfold requireNode
   refine Rel.bind hR.pre (Rel.getSt hR.pre) fun st => ?_
   split
@@ -108,21 +112,21 @@ theorem rel_requireNode (hR : StepRel R m) (id : Int) : Rel R (requireNode id) :
 
 /-- Syntax-directed search for `Rel R`. -/
 macro "rel_auto" hR:ident hp:ident : tactic => `(tactic| repeat' (first
-  | exact Rel.pure (StepRel.pre $hR) _ | exact Rel.raise (StepRel.pre $hR) _ | exact Rel.getSt (StepRel.pre $hR)
-  | exact StepRel.setNode $hR _ | exact StepRel.alloc $hR | exact rel_requireNode $hR _
-  | exact Rel.convertExn (StepRel.pre $hR) _ _ _
+  | exact Rel.pure (StepRel0.pre $hR) _ | exact Rel.raise (StepRel0.pre $hR) _ | exact Rel.getSt (StepRel0.pre $hR)
+  | exact StepRel0.setNode $hR _ | exact StepRel0.alloc $hR | exact rel_requireNode $hR _
+  | exact Rel.convertExn (StepRel0.pre $hR) _ _ _
   | exact rel_gwSend_site $hR $hp _ _ (by reaction_tac) (by simp [reactionFlags])
-  | refine Rel.seq (StepRel.pre $hR) ?_ ?_ | refine Rel.bind (StepRel.pre $hR) ?_ (fun _ => ?_)
+  | refine Rel.seq (StepRel0.pre $hR) ?_ ?_ | refine Rel.bind (StepRel0.pre $hR) ?_ (fun _ => ?_)
   | split
   | dsimp only))
 
-theorem rel_wrapMissingPV (hR : StepRel R m) (hp : ParkOK R) {inner : Msg → M Msg} (hi : Rel R (inner m)) :
+theorem rel_wrapMissingPV (hR : StepRel0 R m) (hp : ParkOK R) {inner : Msg → M Msg} (hi : Rel R (inner m)) :
     Rel R (wrapMissingPV inner m) := by
   unfold wrapMissingPV
   refine Rel.tryFinally hR.pre hi fun r => ?_
   cases r <;> rel_auto hR hp
 
-theorem rel_wrapMissingNC (hR : StepRel R m) (hp : ParkOK R) {inner : Msg → M Msg} (hi : Rel R (inner m)) :
+theorem rel_wrapMissingNC (hR : StepRel0 R m) (hp : ParkOK R) {inner : Msg → M Msg} (hi : Rel R (inner m)) :
     Rel R (wrapMissingNC inner m) := by
   unfold wrapMissingNC
   refine Rel.tryCatch hR.pre hi fun e y hy => ?_
@@ -143,7 +147,7 @@ theorem rel_flushList (hR : StepRel R m) (hp : ParkOK R) (l : List (Key × Msg))
   | cons x xs ih =>
     obtain ⟨k, bm⟩ := x
     unfold flushList
-    exact Rel.seq hR.pre (rel_gwSend_site hR hp _ _ (Reaction.released bm (hl (k, bm) (by simp))) (by simp [reactionFlags]))
+    exact Rel.seq hR.pre (rel_gwSend_site hR.toStepRel0 hp _ _ (Reaction.released bm (hl (k, bm) (by simp))) (by simp [reactionFlags]))
       (Rel.seq hR.pre (hR.erase k bm (hl (k, bm) (by simp))) (ih fun e he => hl e (by simp [he])))
 
 theorem rel_flush (hR : StepRel R m) (hp : ParkOK R) : Rel R (flush m) := by
@@ -152,7 +156,7 @@ theorem rel_flush (hR : StepRel R m) (hp : ParkOK R) : Rel R (flush m) := by
   refine Rel.seq hR.pre (rel_flushList hR hp _ fun e he => ?_) (Rel.pure hR.pre _)
   simpa using (List.mem_filter.mp he).2
 
-theorem rel_hVersion (hR : StepRel R m) : Rel R (hVersion m) := ⟨fun w => by
+theorem rel_hVersion (hR : StepRel0 R m) : Rel R (hVersion m) := ⟨fun w => by
   unfold hVersion AioMySensors.convertExn
   cases h : getProtocolE m.payload with
   | error c =>
@@ -163,10 +167,19 @@ theorem rel_hVersion (hR : StepRel R m) : Rel R (hVersion m) := ⟨fun w => by
     have := (hR.version v h).step w
     simpa [M.bind, M.pure, M.seq, versionMod, M.modifySt] using this⟩
 
-theorem rel_runLeaf (hR : StepRel R m) (hp : ParkOK R) (env : Env) (b : Body) (f : Msg → M Msg)
-    (hf : runLeaf env b = some f) : Rel R (f m) := by
+/-- Bodies that release parked commands. -/
+def flushing : Body → Bool
+  | .iHeartbeatResponse20 => true
+  | .iPreSleepNotification22 => true
+  | _ => false
+
+/-- Every leaf handler except the two releasing ones, without the `erase` obligation. -/
+theorem rel_runLeaf0 (hR : StepRel0 R m) (hp : ParkOK R) (env : Env) (b : Body) (f : Msg → M Msg)
+    (hf : runLeaf env b = some f) (hb : flushing b = false) : Rel R (f m) := by
   cases b <;> simp only [runLeaf, Option.some.injEq] at hf <;> try (exact absurd hf (by simp))
-  all_goals subst hf
+  all_goals first
+    | (simp [flushing] at hb; done)
+    | subst hf
   · unfold hSet; rel_auto hR hp
   · unfold hReq; rel_auto hR hp
   · exact rel_hVersion hR
@@ -178,19 +191,31 @@ theorem rel_runLeaf (hR : StepRel R m) (hp : ParkOK R) (env : Env) (b : Body) (f
   · unfold hSketchVersion; rel_auto hR hp
   · unfold hGatewayReady; rel_auto hR hp
   · unfold hDiscoverResponse; rel_auto hR hp
-  · unfold hHeartbeat20 heartbeatValue
-    refine Rel.bind hR.pre (rel_requireNode hR _) fun node => ?_
-    refine Rel.bind hR.pre (Rel.convertExn hR.pre _ _ _) fun hb => ?_
-    exact Rel.seq hR.pre (hR.setNode _) (rel_flush hR hp)
   · unfold hHeartbeat22 heartbeatValue; rel_auto hR hp
-  · unfold hPreSleep22
-    refine Rel.bind hR.pre (rel_requireNode hR _) fun node => ?_
-    exact Rel.seq hR.pre (hR.setNode _) (rel_flush hR hp)
 
-theorem rel_runPre (hR : StepRel R m) (b : Body) : Rel R (runPre b m) := by
+theorem rel_runLeaf (hR : StepRel R m) (hp : ParkOK R) (env : Env) (b : Body) (f : Msg → M Msg)
+    (hf : runLeaf env b = some f) : Rel R (f m) := by
+  cases hb : flushing b with
+  | false => exact rel_runLeaf0 hR.toStepRel0 hp env b f hf hb
+  | true =>
+    have h0 := hR.toStepRel0
+    cases b <;> first
+      | (simp [flushing] at hb; done)
+      | skip
+    all_goals simp only [runLeaf, Option.some.injEq] at hf
+    all_goals subst hf
+    · unfold hHeartbeat20 heartbeatValue
+      refine Rel.bind hR.pre (rel_requireNode h0 _) fun node => ?_
+      refine Rel.bind hR.pre (Rel.convertExn hR.pre _ _ _) fun hb => ?_
+      exact Rel.seq hR.pre (hR.setNode _) (rel_flush hR hp)
+    · unfold hPreSleep22
+      refine Rel.bind hR.pre (rel_requireNode h0 _) fun node => ?_
+      exact Rel.seq hR.pre (hR.setNode _) (rel_flush hR hp)
+
+theorem rel_runPre (hR : StepRel0 R m) (b : Body) : Rel R (runPre b m) := by
   cases b <;> first | exact hR.unmark | exact Rel.raise hR.pre _
 
-theorem rel_applyLayers (hR : StepRel R m) (hp : ParkOK R) (ls : List Layer) (base : Msg → M Msg)
+theorem rel_applyLayers (hR : StepRel0 R m) (hp : ParkOK R) (ls : List Layer) (base : Msg → M Msg)
     (hb : Rel R (base m)) : Rel R (applyLayers ls base m) := by
   induction ls with
   | nil => simpa [applyLayers] using hb
@@ -212,10 +237,34 @@ theorem rel_runTyped (hR : StepRel R m) (hp : ParkOK R) (env : Env) (och : Optio
     simp only [runTyped, runInner]
     cases hf : runLeaf env ch.base with
     | none => exact Rel.raise hR.pre _
-    | some f => exact rel_applyLayers hR hp _ f (rel_runLeaf hR hp env _ f hf)
+    | some f => exact rel_applyLayers hR.toStepRel0 hp _ f (rel_runLeaf hR hp env _ f hf)
+
+/-- The handler reached through the type name does not release. -/
+def chainNoFlush (och : Option Chain) : Bool :=
+  match och with
+  | none => true
+  | some ch => !flushing ch.base
+
+theorem rel_runTyped0 (hR : StepRel0 R m) (hp : ParkOK R) (env : Env) (och : Option Chain) (hn : chainNoFlush och = true) :
+    Rel R (runTyped env och m) := by
+  cases och with
+  | none => exact Rel.pure hR.pre _
+  | some ch =>
+    simp only [runTyped, runInner]
+    cases hf : runLeaf env ch.base with
+    | none => exact Rel.raise hR.pre _
+    | some f => exact rel_applyLayers hR hp _ f (rel_runLeaf0 hR hp env _ f hf (by simpa [chainNoFlush] using hn))
+
+/-- No handler that `m` can reach under protocol `v` through the body `b` releases parked commands. -/
+def baseNoFlush (v : Ver) (m : Msg) : Body → Bool
+  | .presentation14 => chainNoFlush (Gen.versionHandlerChain v)
+  | .internal14 => chainNoFlush (((Gen.internalChains v).lookup m.type).join)
+  | .stream14 => chainNoFlush (((Gen.streamChains v).lookup m.type).join)
+  | b => !flushing b
 
 theorem rel_runBase (hR : StepRel R m) (hp : ParkOK R) (env : Env) (v : Ver) (b : Body) :
     Rel R (runBase env v b m) := by
+  have h0 := hR.toStepRel0
   cases b
   case presentation14 =>
     simp only [runBase, hPresentation]
@@ -224,7 +273,7 @@ theorem rel_runBase (hR : StepRel R m) (hp : ParkOK R) (env : Env) (v : Ver) (b 
       split
       · exact rel_runTyped hR hp env _
       · exact Rel.pure hR.pre _
-    · rel_auto hR hp
+    · rel_auto h0 hp
   case internal14 =>
     simp only [runBase, hInternal]
     split
@@ -232,7 +281,7 @@ theorem rel_runBase (hR : StepRel R m) (hp : ParkOK R) (env : Env) (v : Ver) (b 
     · exact rel_runTyped hR hp env _
   case stream14 =>
     simp only [runBase, hStream]
-    refine Rel.bind hR.pre (rel_requireNode hR _) fun _ => ?_
+    refine Rel.bind hR.pre (rel_requireNode h0 _) fun _ => ?_
     split
     · exact Rel.raise hR.pre _
     · exact rel_runTyped hR hp env _
@@ -252,11 +301,60 @@ theorem rel_runBase (hR : StepRel R m) (hp : ParkOK R) (env : Env) (v : Ver) (b 
   case iHeartbeatResponse22 => exact rel_runLeaf hR hp env .iHeartbeatResponse22 _ rfl
   case iPreSleepNotification22 => exact rel_runLeaf hR hp env .iPreSleepNotification22 _ rfl
 
+theorem rel_runBase0 (hR : StepRel0 R m) (hp : ParkOK R) (env : Env) (v : Ver) (b : Body) (hn : baseNoFlush v m b = true) :
+    Rel R (runBase env v b m) := by
+  cases b
+  case presentation14 =>
+    simp only [runBase, hPresentation]
+    split
+    · refine Rel.seq hR.pre (hR.setNode _) ?_
+      split
+      · exact rel_runTyped0 hR hp env _ hn
+      · exact Rel.pure hR.pre _
+    · rel_auto hR hp
+  case internal14 =>
+    simp only [runBase, hInternal]
+    split
+    · exact Rel.raise hR.pre _
+    · exact rel_runTyped0 hR hp env _ hn
+  case stream14 =>
+    simp only [runBase, hStream]
+    refine Rel.bind hR.pre (rel_requireNode hR _) fun _ => ?_
+    split
+    · exact Rel.raise hR.pre _
+    · exact rel_runTyped0 hR hp env _ hn
+  case presentation20 => exact Rel.raise hR.pre _
+  case iHeartbeatResponse20 => simp [baseNoFlush, flushing] at hn
+  case iPreSleepNotification22 => simp [baseNoFlush, flushing] at hn
+  case set14 => exact rel_runLeaf0 hR hp env .set14 _ rfl rfl
+  case req14 => exact rel_runLeaf0 hR hp env .req14 _ rfl rfl
+  case iVersion14 => exact rel_runLeaf0 hR hp env .iVersion14 _ rfl rfl
+  case iIdRequest14 => exact rel_runLeaf0 hR hp env .iIdRequest14 _ rfl rfl
+  case iConfig14 => exact rel_runLeaf0 hR hp env .iConfig14 _ rfl rfl
+  case iTime14 => exact rel_runLeaf0 hR hp env .iTime14 _ rfl rfl
+  case iBatteryLevel14 => exact rel_runLeaf0 hR hp env .iBatteryLevel14 _ rfl rfl
+  case iSketchName14 => exact rel_runLeaf0 hR hp env .iSketchName14 _ rfl rfl
+  case iSketchVersion14 => exact rel_runLeaf0 hR hp env .iSketchVersion14 _ rfl rfl
+  case iGatewayReady20 => exact rel_runLeaf0 hR hp env .iGatewayReady20 _ rfl rfl
+  case iDiscoverResponse20 => exact rel_runLeaf0 hR hp env .iDiscoverResponse20 _ rfl rfl
+  case iHeartbeatResponse22 => exact rel_runLeaf0 hR hp env .iHeartbeatResponse22 _ rfl rfl
+
 theorem rel_dispatch (hR : StepRel R m) (hp : ParkOK R) (env : Env) (v : Ver) : Rel R (dispatch env v m) := by
   unfold dispatch
   split
   · exact Rel.raise hR.pre _
-  · exact rel_applyLayers hR hp _ _ (rel_runBase hR hp env v _)
+  · exact rel_applyLayers hR.toStepRel0 hp _ _ (rel_runBase hR hp env v _)
+
+/-- `m` reaches no releasing handler under protocol `v`. -/
+def NoFlush (v : Ver) (m : Msg) : Prop :=
+  ∀ ch, (Gen.commandChains v).lookup m.cmd = some ch → baseNoFlush v m ch.base = true
+
+theorem rel_dispatch0 (hR : StepRel0 R m) (hp : ParkOK R) (env : Env) (v : Ver) (hn : NoFlush v m) :
+    Rel R (dispatch env v m) := by
+  unfold dispatch
+  split
+  · exact Rel.raise hR.pre _
+  · next ch hch => exact rel_applyLayers hR hp _ _ (rel_runBase0 hR hp env v _ (hn ch hch))
 
 /-- **Generic receive theorem.** One iteration of `listen` only makes `R`-steps. -/
 theorem rel_recv (hpre : PreO R) (hR : ∀ v m, decode v line = some m → StepRel R m) (hp : ParkOK R) (env : Env) :
